@@ -12,6 +12,8 @@ CONSTANTS
   NRcpt = %(nr)d
   Lmtp = %(lmtp)s
   Pipelining = %(pipe)s
+  NMsg = %(nmsg)d
+  KF_RsetBypass = %(kf3)s
   KF_FlushOutside = %(kf1)s
   KF_FirstRcptClass = %(kf2)s
 INVARIANT C11_TotalResult
@@ -44,25 +46,25 @@ def parse_beh(out):
     for ch in chunks:
         ch = ch.split('\n<<')[0] if False else ch
         recs = [_fields(m.group(1)) for m in _REC.finditer(ch) if '|->' in m.group(1) and 'per |->' not in m.group(1)]
-        hist = [(r['s'].strip('"'), int(r['i']), r['a'].strip('"')) for r in recs if 's' in r]
-        m = re.search(r'\[\s*k \|-> "map",\s*per \|-> <<(.*?)>>\s*\]', ch, re.S)
-        if m:
-            result = {'k': 'map', 'per': [x.strip().strip('"') for x in m.group(1).split(',')]}
-        else:
-            m = re.search(r'\[\s*k \|-> "raise",\s*c \|-> "(\w)"\s*\]', ch)
-            if not m:
-                raise MachineryError('unparsable behaviour: %r' % ch[:300])
-            result = {'k': 'raise', 'c': m.group(1)}
-        behs.append({'hist': hist, 'result': result})
+        hist = [(int(r.get('m', 1)), r['s'].strip('"'), int(r['i']), r['a'].strip('"')) for r in recs if 's' in r]
+        results = []
+        for m in re.finditer(r'\[\s*k \|-> "(map|raise)",\s*(?:per \|-> <<(.*?)>>|c \|-> "(\w)")\s*\]', ch, re.S):
+            if m.group(1) == 'map':
+                results.append({'k': 'map', 'per': [x.strip().strip('"') for x in m.group(2).split(',')]})
+            else:
+                results.append({'k': 'raise', 'c': m.group(3)})
+        if not results:
+            raise MachineryError('unparsable behaviour: %r' % ch[:300])
+        behs.append({'hist': hist, 'results': results})
     return behs
 
 
-def relayclient(wd, nr, lmtp, pipe, kf_first):
+def relayclient(wd, nr, lmtp, pipe, kf_first, nmsg=1):
     """all complete behaviours of spec/RelayClient.tla for one configuration; also the design check itself"""
-    cfgp = os.path.join(wd, 'rc_%d_%s_%s.cfg' % (nr, lmtp, pipe))
+    cfgp = os.path.join(wd, 'rc_%d_%s_%s_%d.cfg' % (nr, lmtp, pipe, nmsg))
     with open(cfgp, 'w') as f:
         f.write(RC_CFG % dict(nr=nr, lmtp='TRUE' if lmtp else 'FALSE', pipe='TRUE' if pipe else 'FALSE', kf1='FALSE',
-                              kf2='TRUE' if kf_first else 'FALSE', emit='INVARIANT Emit',
+                              kf2='TRUE' if kf_first else 'FALSE', emit='INVARIANT Emit', nmsg=nmsg, kf3='FALSE',
                               own='' if kf_first else 'INVARIANT C11_OwnClass'))
     r = tlc.run_mc('RelayClient', cfgp, workers=1, timeout=1800)
     if not r['ok']:
@@ -70,7 +72,7 @@ def relayclient(wd, nr, lmtp, pipe, kf_first):
     behs = parse_beh(r['out'])
     if not behs:
         raise MachineryError('RelayClient %s printed no behaviours' % cfgp)
-    return behs, {'name': 'RelayClient NRcpt=%d lmtp=%s pipelining=%s (every downstream script; behaviours emitted for replay)' % (nr, lmtp, pipe),
+    return behs, {'name': 'RelayClient NRcpt=%d lmtp=%s pipelining=%s messages=%d (every downstream script; behaviours emitted for replay)' % (nr, lmtp, pipe, nmsg),
                   'states': r['states'], 'distinct': r['distinct'], 'depth': r['depth'], 'wall_s': r['wall_s'], 'behaviours': len(behs)}
 
 
@@ -85,7 +87,7 @@ def relayclient_design_jobs(wd, kf_first_in_code):
     jobs = []
 
     def cfg(name, **kw):
-        d = dict(nr=2, lmtp='FALSE', pipe='TRUE', kf1='FALSE', kf2='FALSE', emit='', own='INVARIANT C11_OwnClass')
+        d = dict(nr=2, lmtp='FALSE', pipe='TRUE', kf1='FALSE', kf2='FALSE', kf3='FALSE', nmsg=1, emit='', own='INVARIANT C11_OwnClass')
         d.update(kw)
         p_ = os.path.join(wd, name)
         with open(p_, 'w') as f:
